@@ -308,7 +308,37 @@ func indexByte(s string, b byte) int {
 	return -1
 }
 
-const ruleC23 = "same generator as C22, and in one case out of five a focused one (one bounded account backs several non-adjacent parts of a funding whose remainder is given back - unexhausted max, account variable equal to a literal account, allotment naming it twice, kept remainder - and is then drawn on again for everything or for an amount around what it has left); after each successful run every non-world source account never declared unbounded is compared with min(initial, -largest declared bound) per asset; non-trivial = successful run in which a bounded source either received funds earlier in the script and then spent, or started negative; distinct = by script text + variables + balances"
+const ruleC23 = "same generator as C22, and in one case out of five a focused one (one bounded account backs several non-adjacent parts of a funding whose remainder is given back - unexhausted max, account variable equal to a literal account, allotment naming it twice, kept remainder - and is then drawn on again for everything or for an amount around what it has left) or another focused one (an account already in debt named by 2-4 statements with different allowances, next to a funded fallback source); after each successful run every non-world source account never declared unbounded is compared with min(initial, -largest declared bound) per asset; non-trivial = successful run in which a bounded source either received funds earlier in the script and then spent, or started negative; distinct = by script text + variables + balances"
+
+func genC23Program(rt *rapid.T) *Program {
+	switch rapid.IntRange(0, 9).Draw(rt, "focused") {
+	case 0, 1:
+		return GenRepayProgram(rt)
+	case 2, 3:
+		return GenOverdraftProgram(rt)
+	}
+	return GenProgram(rt, Opts{MaxStmts: 4, MaxDepth: 3, BigAmount: false})
+}
+
+// TestC06Scripts: the allowance part of C06 at the level of one script (the anchor machine.go:withdrawAll): the same
+// oracle as C23 - no bounded source ends below min(initial balance, -largest allowance it was given) - under the
+// generators that revolve around overdrafts.
+func TestC06Scripts(t *testing.T) {
+	st := stats.New("C06", "exploration", "script level: "+ruleC23)
+	defer st.Write(t)
+	n := stats.N(6000, 25000)
+	st.Set("requested_checks_scripts", n)
+	stats.Check(t, n, 623, func(rt *rapid.T) {
+		var p *Program
+		if rapid.IntRange(0, 2).Draw(rt, "general") == 0 {
+			p = GenProgram(rt, Opts{MaxStmts: 4, MaxDepth: 3, BigAmount: false})
+		} else {
+			p = GenOverdraftProgram(rt)
+		}
+		checkC23(rt, st, p)
+		st.Add("completed_checks_scripts", 1)
+	})
+}
 
 func TestC23(t *testing.T) {
 	st := stats.New("C23", "exploration", ruleC23)
@@ -316,13 +346,7 @@ func TestC23(t *testing.T) {
 	n := stats.N(10000, 40000)
 	st.Set("requested_checks", n)
 	stats.Check(t, n, 23, func(rt *rapid.T) {
-		var p *Program
-		if rapid.IntRange(0, 4).Draw(rt, "focusedRepay") == 0 {
-			p = GenRepayProgram(rt)
-		} else {
-			p = GenProgram(rt, Opts{MaxStmts: 4, MaxDepth: 3, BigAmount: false})
-		}
-		checkC23(rt, st, p)
+		checkC23(rt, st, genC23Program(rt))
 		st.Add("completed_checks", 1)
 	})
 }
